@@ -599,7 +599,7 @@ def _run(strat, pc, goal, ms, seed):
     return r, time.time() - t0, s
 
 
-def check(pc, goal, timeout_ms):
+def check(pc, goal, timeout_ms, prefer=None):
     """is /\\ pc => goal valid?  ('unsat'|'sat'|'unknown', seconds, model, reason)
 
     Hypothesis ladder first (proving from a SUBSET of the hypotheses is sound; `sat` on a subset is never reported):
@@ -656,6 +656,14 @@ def check(pc, goal, timeout_ms):
             total += dt
             if r == z3.unsat:
                 return 'unsat', total, None, '%s-generalised:%d/%d' % (name, len(sub), len(pc))
+    if prefer is not None:
+        # contract-directed case analyses are MBQI territory: give that strategy a large slice before the round robin
+        r, dt, s = _run(prefer, pc, goal, timeout_ms * 0.6, zseed)
+        total += dt
+        if r == z3.unsat:
+            return 'unsat', total, None, prefer
+        if r == z3.sat:
+            return 'sat', total, s.model(), prefer
     # all hypotheses: the strategies take turns with growing slices (the best one is not known in advance and they
     # differ by an order of magnitude; iterative deepening costs at most ~2x the best strategy)
     reasons = []
@@ -897,7 +905,7 @@ def verify_function(tu, reg, fname, prop='CVC', timeout_ms=None, kinds=None, rep
                     secs += dt
                     continue
             for piece in pieces:
-                r1, dt1, model1, reason1 = check(ob.pc, piece, timeout_ms)
+                r1, dt1, model1, reason1 = check(ob.pc, piece, timeout_ms, prefer='noematch' if ob.cases else None)
                 dt += dt1
                 if TRACE:
                     print('      [trace] %s.%s path %d: %s %.2fs (%s) %s' % (kind, name, ob.path, r1, dt1, reason1, str(piece)[-120:].replace('\n', ' ')))
